@@ -89,16 +89,16 @@ Proof.
   - intros H; inversion H; subst. simpl. rewrite bytes_eqb_refl. reflexivity.
 Qed.
 
-Lemma check_unique_mono fx c t x t' : check_unique fx c t x = Ok t' -> mono c t t'.
+Lemma check_unique_mono fx g c t x t' : check_unique fx g c t x = Ok t' -> mono c t t'.
 Proof.
   unfold check_unique. destruct (fx_unique fx).
   - unfold check_unique_fix. cbv zeta.
-    destruct (klookup (smkey_u x) (t_keys (touch_u c t))) as [[|]|]; try discriminate;
-    destruct (scan_pfx (under (smkey_u x) (uview (usnap_ts c t) (c_rows c)))) as [rs f]; destruct f; try discriminate;
+    destruct (klookup (smkey_u g x) (t_keys (touch_u c t))) as [[|]|]; try discriminate;
+    destruct (scan_pfx (under (smkey_u g x) (uview g (usnap_ts c t) (c_rows c)))) as [rs f]; destruct f; try discriminate;
     intros H; inversion H; subst; (eapply mono_trans; [apply mono_touch_u | apply mono_add_read]).
   - unfold check_unique_cur. cbv zeta.
-    destruct (klookup (smkey_u x) (t_keys (touch_u c t))) as [[|]|]; try discriminate;
-    destruct (get_live_with_prefix (smkey_u x) (uview (usnap_ts c t) (c_rows c))); try discriminate;
+    destruct (klookup (smkey_u g x) (t_keys (touch_u c t))) as [[|]|]; try discriminate;
+    destruct (get_live_with_prefix (smkey_u g x) (uview g (usnap_ts c t) (c_rows c))); try discriminate;
     intros H; inversion H; subst; (eapply mono_trans; [apply mono_touch_u | apply mono_add_read]).
 Qed.
 
@@ -108,11 +108,8 @@ Proof.
   unfold deprecate. intros H. bind_inv H. bind_inv H. inversion H; subst; clear H.
   assert (M1 : mono c t (fst a)).
   { destruct (t_uidx t); [|inversion Hb; subst; apply mono_refl].
-    destruct nv; try discriminate.
-    - destruct (val_eqb (r_v cur) VNull); [inversion Hb; subst; apply mono_refl|].
-      bind_inv Hb. inversion Hb; subst. simpl. eapply key_set_mono; eauto.
-    - destruct (val_eqb (r_v cur) (VInt z)); [inversion Hb; subst; apply mono_refl|].
-      bind_inv Hb. inversion Hb; subst. simpl. eapply key_set_mono; eauto. }
+    apply bind_ok in Hb as (same & Hs & Hb). destruct same; [inversion Hb; subst; apply mono_refl|].
+    bind_inv Hb. inversion Hb; subst. simpl. eapply key_set_mono; eauto. }
   eapply mono_trans; [exact M1|].
   destruct (t_nidx t); [|inversion Hb0; subst; apply mono_refl].
   destruct ns; try discriminate.
@@ -123,13 +120,26 @@ Proof.
 Qed.
 
 Lemma deprecate_ru g t cur nv ns t' rn :
-  deprecate g t cur nv ns = Ok (t', true, rn) -> t_uidx t = true /\ val_eqb (r_v cur) nv = true.
+  deprecate g t cur nv ns = Ok (t', true, rn) -> t_uidx t = true /\ ucols_same g cur nv ns = Ok true.
 Proof.
   unfold deprecate. intros H. bind_inv H. bind_inv H. inversion H; subst; clear H.
   destruct (t_uidx t); [|inversion Hb; subst; simpl in *; discriminate].
-  split; auto. destruct nv; try discriminate.
-  - destruct (val_eqb (r_v cur) VNull) eqn:Ev; auto. bind_inv Hb. inversion Hb; subst. simpl in *; discriminate.
-  - destruct (val_eqb (r_v cur) (VInt z)) eqn:Ev; auto. bind_inv Hb. inversion Hb; subst. simpl in *; discriminate.
+  split; auto. apply bind_ok in Hb as (same & Hs & Hb). rewrite H2. destruct same; auto.
+  bind_inv Hb. inversion Hb; subst. simpl in *; discriminate.
+Qed.
+
+(* "same index key" means: the value under the UNIQUE index does not change *)
+Lemma ucols_same_uvals g cur nv ns v' s' :
+  ucols_same g cur nv ns = Ok true -> conv_v nv = Ok v' -> conv_s (k_maxlen g) ns = Ok s' ->
+  uvals g cur = uvals g (mkRow v' s').
+Proof.
+  unfold ucols_same, uvals. simpl r_v; simpl r_s. intros H Cv Cs. apply conv_v_same in Cv. subst v'.
+  destruct nv; try discriminate; destruct (k_ucomp g).
+  all: try (inversion H as [E]; apply val_eqb_eq in E; rewrite E; reflexivity).
+  all: destruct ns; try discriminate; inversion H as [E]; apply andb_prop in E as [E1 E2];
+    apply val_eqb_eq in E1; apply val_eqb_eq in E2; rewrite E1, E2; simpl in Cs.
+  all: try (inversion Cs; reflexivity).
+  all: destruct (len s <=? k_maxlen g); inversion Cs; reflexivity.
 Qed.
 
 (* ---------- rfold ---------- *)
@@ -158,11 +168,12 @@ Lemma do_upsert_inv g fx c t k nv ns reuse t' :
     mono c t t1 /\
     conv_v nv = Ok v' /\ conv_s (k_maxlen g) ns = Ok s' /\
     (ru = true -> exists cur t0, reuse = true /\ fetch c t k = (Some cur, t0) /\ mono c t0 t1 /\
-                                 t_uidx t = true /\ val_eqb (r_v cur) nv = true) /\
+                                 t_uidx t = true /\ uvals g cur = uvals g (mkRow v' s')) /\
     exists t3,
       (let t2 := set_rows (aset k (false, mkRow v' s') (t_rows t1)) (touch_p c t1) in
        if t_uidx t2 && negb ru
-       then exists tc, check_unique fx c t2 v' = Ok tc /\ key_set (smkey_u v') true tc = Ok t3
+       then exists tc, check_unique fx g c t2 (uvals g (mkRow v' s')) = Ok tc /\
+                       key_set (smkey_u g (uvals g (mkRow v' s'))) true tc = Ok t3
        else t3 = t2) /\
       (if t_nidx t3 && negb rn then key_set (smkey_n (k_maxlen g) s') true t3 = Ok t' else t' = t3).
 Proof.
@@ -171,16 +182,17 @@ Proof.
   bind_inv H. inversion H; subst; clear H.
   exists t1, ru, rn, v', s'.
   assert (D : mono c t t1 /\ (ru = true -> exists cur t0, reuse = true /\ fetch c t k = (Some cur, t0) /\ mono c t0 t1 /\
-                                            t_uidx t = true /\ val_eqb (r_v cur) nv = true)).
+                                            t_uidx t = true /\ uvals g cur = uvals g (mkRow v' s'))).
   { destruct (reuse && (t_uidx t || t_nidx t)) eqn:Er.
     - destruct (fetch c t k) as [[cur|] t0] eqn:Ef.
       + pose proof (fetch_mono c t k) as M0. rewrite Ef in M0; simpl in M0.
         pose proof (deprecate_mono _ c _ _ _ _ _ _ _ Hb) as M1.
         split; [eapply mono_trans; eauto|].
         intros ->. exists cur, t0. apply andb_prop in Er as [Er1 _].
+        destruct (deprecate_ru _ _ _ _ _ _ _ Hb) as [Du Ds].
         refine (conj Er1 (conj eq_refl (conj M1 (conj _ _)))).
-        * rewrite <- (m_uidx _ _ _ M0). eapply deprecate_ru; eauto.
-        * eapply deprecate_ru; eauto.
+        * rewrite <- (m_uidx _ _ _ M0). exact Du.
+        * eapply ucols_same_uvals; eauto.
       + inversion Hb; subst. pose proof (fetch_mono c t k) as M0. rewrite Ef in M0; simpl in M0.
         split; auto. discriminate.
     - inversion Hb; subst. split; [apply mono_refl | discriminate]. }
